@@ -148,6 +148,20 @@ CHECKS = {
             'form of an ID in use are excluded; one open known finding',
             'deterministic simulation: seeded multi-client histories with '
             'crash/restart fault injection against a reference model'),
+    'C10': ('store', 'exploration',
+            'model-based multi-client histories of instance operations with '
+            'collision-biased arguments (existing, deleted, duplicate, '
+            'case-variant, key-reordered paths, partial instances, '
+            'PropertyList subsets, wrong types, unknown classes/namespaces) '
+            'against a reference dict keyed by (namespace, class, '
+            'keybindings); after every call every passed and returned object '
+            'is mutated in place (aliasing fault); cross-invariant: '
+            'EnumerateInstanceNames over all classes == model key set',
+            'only what the documentation fixes is compared; when several '
+            'rejection reasons apply any documented status is accepted; '
+            'association instances are left to C13',
+            'deterministic simulation: seeded multi-client histories with '
+            'aliasing fault injection against an executable reference model'),
 }
 
 ENGINES = [
